@@ -248,6 +248,10 @@ def run(ctx, rep) -> None:
     rep.add_tlc('MC_Orchestration', r)
     if not r.ok:
         rep.violation(f'Orchestration design check: {r.violated} {r.errors[:1]}', files={'tlc.out': r.out[-100000:]})
+    r = tlc.run('Orchestration', 'MC_Orchestration_unb.cfg')      # any number of revisions over 4 pairs (the counter is outside the VIEW)
+    rep.add_tlc('MC_Orchestration_unb', r)
+    if not r.ok:
+        rep.violation(f'Orchestration design check (unbounded revisions): {r.violated} {r.errors[:1]}', files={'tlc.out': r.out[-100000:]})
     for cfg, inv in (('MC_Orchestration_neg.cfg', 'Coverage'), ('MC_Orchestration_f15.cfg', 'NoFamily')):
         rn = tlc.run('Orchestration', cfg)
         if rn.ok or ('invariant', inv) not in rn.violated:
